@@ -102,6 +102,8 @@ def value_family(name, tokens, rng=None):
         elif name == "huge":     # values above the 512 KiB buffer-pool limit of the record readers (and one above 1 MiB)
             n = [600 * 1024, 524288, 524289, 1200000][i % 4]
             b = (t.encode() + bytes(rng.randrange(256) for _ in range(64)) * (n // 64 + 1))[:n]
+        elif name == "big40k":   # equal-length values of 40 KB (an overwrite fits the buffer of the value it replaces)
+            b = (t.encode() + bytes([65 + i]) * 40960)[:40960]
         elif name == "varint":   # value lengths at the varint boundaries of the record header
             n = [127, 128, 16383, 16384][i % 4]
             b = (t.encode() + bytes(rng.randrange(256) for _ in range(n)))[:n]
